@@ -264,8 +264,14 @@ where
                             }
                         }
                     } else {
-                        if !self.contains(&item) {
-                            //will do either binary or linear search
+                        //binary search in the original (sorted) part, linear search in what was appended since
+                        let present = if self.sorted {
+                            self.array[..original_len].binary_search(&item).is_ok()
+                                || self.array[original_len..].contains(&item)
+                        } else {
+                            self.array.contains(&item)
+                        };
+                        if !present {
                             updated = true;
                             self.add_unchecked(item);
                         }
